@@ -10,6 +10,8 @@ E=/scratch/eval
 R=$E/repo
 OUT=$S/eval.log
 : > $OUT
+mkdir -p $E
+[ -d $R ] || git -C /repo worktree add -q --detach $R HEAD
 cd $R && git reset -q --hard && git clean -fdq tests >/dev/null 2>&1
 git -C $R checkout -q --detach $(git -C /repo rev-parse HEAD) 2>>$OUT
 if ! git -C $R apply --check $S/patch.diff 2>>$OUT; then
